@@ -419,11 +419,10 @@ class Analyzer:
                     pass
             return ("tuple",)
         if k == "If":
-            self.branch(e, env)
-            return ("?",)
+            # every feasible branch returned: what follows the statement is not reached
+            return ("ret",) if self.branch(e, env) else ("?",)
         if k == "Block":
-            self.block(e, dict(env))
-            return ("?",)
+            return ("ret",) if self.block(e, dict(env)) else ("?",)
         if k == "Return":
             if e.get("e") is not None:
                 self.ev(e["e"], env)
@@ -445,14 +444,19 @@ class Analyzer:
         v = self.ev(c, env)
         if v[0] != "b":
             raise Unsupported("condition")
+        done = []
         if True in v[1]:
-            self.block(e["then"], dict(env))
-        if False in v[1] and e.get("else") is not None:
-            el = A.strip(e["else"])
-            if el.get("k") == "If":
-                self.branch(el, env)
+            done.append(self.block(e["then"], dict(env)))
+        if False in v[1]:
+            if e.get("else") is not None:
+                el = A.strip(e["else"])
+                if el.get("k") == "If":
+                    done.append(self.branch(el, env))
+                else:
+                    done.append(self.block(el, dict(env)))
             else:
-                self.block(el, dict(env))
+                done.append(False)
+        return bool(done) and all(done)
 
     def alternatives(self, e, env):
         """possible values of an if / block / tuple expression used as a let initialiser"""
@@ -477,13 +481,15 @@ class Analyzer:
         return [self.ev(e, env)]
 
     def block(self, b, env):
-        self.stmts(b["stmts"], 0, env)
+        """True when every feasible path through the block ends in `return`"""
+        return self.stmts(b["stmts"], 0, env)
 
     def stmts(self, ss, i, env):
         while i < len(ss):
             s = ss[i]
             if s.get("k") == "Let" and s.get("init") is not None and s["pat"].get("k") == "PTuple":
                 names = [A.binding_name(x) for x in s["pat"]["elems"]]
+                rets = []
                 for tup in self.alternatives(s["init"], env):
                     if tup[0] != "tuplev" or len(tup[1]) != len(names):
                         raise Unsupported("tuple let of %s" % tup[0])
@@ -494,8 +500,8 @@ class Analyzer:
                         for n, v, c in zip(names, tup[1], combo):
                             if n:
                                 e2[n] = ("f", fs(c)) if c is not None else v
-                        self.stmts(ss, i + 1, e2)
-                return
+                        rets.append(self.stmts(ss, i + 1, e2))
+                return bool(rets) and all(rets)
             if s.get("k") == "Let":
                 nm = A.binding_name(s["pat"])
                 if nm is None or s.get("init") is None:
@@ -503,11 +509,12 @@ class Analyzer:
                 v = self.ev(s["init"], env)
                 if v[0] == "f" and len(v[1]) > 1:
                     # fork on the local's class so that later uses of it stay correlated
+                    rets = []
                     for c in sorted(v[1]):
                         e2 = dict(env)
                         e2[nm] = ("f", fs(c))
-                        self.stmts(ss, i + 1, e2)
-                    return
+                        rets.append(self.stmts(ss, i + 1, e2))
+                    return all(rets)
                 env[nm] = v
                 i += 1
                 continue
@@ -519,8 +526,9 @@ class Analyzer:
                 raise Unsupported(s.get("k"))
             r = self.ev(e, env)
             if r == ("ret",):
-                return
+                return True
             i += 1
+        return False
 
 
 def interval_fns(root=None):
